@@ -11,6 +11,7 @@ CONSTANTS
   ModPorts = {1, 2}
   ModOps <- CT_ModOps
   BadMods = {"badport", "badhw"}
+  BadOps <- C_BadOps
   FragModes = {}
   DropCount <- Both
   MissLen = 128
@@ -19,7 +20,6 @@ CONSTANTS
 INIT Init
 NEXT Next
 VIEW viewE
-ACTION_CONSTRAINT ExportT
 INVARIANT TypeOK
 PROPERTY NoEmitBlocked
 PROPERTY IngressExcluded
@@ -31,4 +31,5 @@ PROPERTY MissRule
 PROPERTY CountersExact
 PROPERTY PortModExact
 PROPERTY BufferedAsSent
+ACTION_CONSTRAINT ExportT
 CHECK_DEADLOCK FALSE
